@@ -803,7 +803,7 @@ theorem anonBody_spec (tbl : List TemplateSig) (va : Option Expr) (m : Meta) (la
           have hacc := acc0_ok va hva
           have hcall : hasE false (if par then Expr.par m (.call m id params) else .call m id params) = false := by
             cases par <;> simp [hasE, hp]
-          have hgo' := go_spec m rs (id ++ "@" ++ label) (acc0Of va) hrs hacc plan _ _ seq decls hgo
+          have hgo' := go_spec m rs (id ++ "#" ++ label) (acc0Of va) hrs hacc plan _ _ seq decls hgo
             (by
               intro s hs
               have : s = _ := List.mem_singleton.mp hs
@@ -817,7 +817,7 @@ theorem anonBody_spec (tbl : List TemplateSig) (va : Option Expr) (m : Meta) (la
               cases va with
               | none => simp [hasS, hasEs]
               | some v => simp [hasS, hasEs, hva v rfl])
-          have hout : ∀ o : String, hasE false (Expr.var m (id ++ "@" ++ label)
+          have hout : ∀ o : String, hasE false (Expr.var m (id ++ "#" ++ label)
               (Accs.ofList (acc0Of va ++ [Acc.cmp o]))) = false := by
             intro o
             simp only [hasE]
@@ -1719,9 +1719,9 @@ theorem anonBody_shape (tbl : List TemplateSig) (va : Option Expr) (m : Meta) (l
     (h : anonBody tbl va m label id params names par n rs = .ok res) :
     ∃ t plan seq, lookupT tbl id = some t ∧ inputPlan m t.inputs names n = .ok plan ∧
       res.1 = [.block m (Stmts.ofList seq)] ∧
-      directSubs seq = (id ++ "@" ++ label, none, Op.var) ::
-        plan.map (fun p => (id ++ "@" ++ label, some p.1, p.2.2)) ∧
-      res.2.2 = outValue va m (id ++ "@" ++ label) t.outputs := by
+      directSubs seq = (id ++ "#" ++ label, none, Op.var) ::
+        plan.map (fun p => (id ++ "#" ++ label, some p.1, p.2.2)) ∧
+      res.2.2 = outValue va m (id ++ "#" ++ label) t.outputs := by
   unfold anonBody at h
   split at h
   · cases h
@@ -1737,7 +1737,7 @@ theorem anonBody_shape (tbl : List TemplateSig) (va : Option Expr) (m : Meta) (l
         · rename_i seq decls hgo
           cases h
           refine ⟨t, plan, seq, ht, hplan, rfl, ?_, ?_⟩
-          · have := go_order m rs (id ++ "@" ++ label) (acc0Of va) hrs plan _ _ seq decls hgo
+          · have := go_order m rs (id ++ "#" ++ label) (acc0Of va) hrs plan _ _ seq decls hgo
             rw [this]
             cases va <;> simp [directSubs, lastCmp, Accs.ofList, Accs.toList]
           · unfold outValue acc0Of
